@@ -65,9 +65,9 @@ func execErrBinary(s *ev.Shard, b *sandbox.Box, c ErrCase) *rp.Fail {
 	}()
 	select {
 	case <-done:
-	case <-time.After(20 * time.Second):
+	case <-time.After(90 * time.Second):
 		if s != nil {
-			fmt.Fprintln(os.Stderr, "WATCHDOG: parsing the case in flight made no progress for 20s")
+			fmt.Fprintln(os.Stderr, "WATCHDOG: parsing the case in flight made no progress for 90s")
 			os.Exit(3)
 		}
 		return &rp.Fail{Sig: "process-stalled", Size: len(c.Src), Msg: fmt.Sprintf("spokfile %q: parsing does not terminate", c.Src)}
